@@ -291,11 +291,35 @@ Fixpoint paid_of (s : cstate) (ops : list cop) (v : Z) : Z :=
 
 Definition matured_ok (op : cop) : bool := match op with AddMatured _ a => 0 <=? a | _ => true end.
 
-(* interval chunks: index of the chunk credited at height h, and of the chunk that matures at
-   h (when h mod interval = 0), with the default interval record (LastIndex 0, LastHeight 0) *)
-Definition chunk_index (o : opts) (h : Z) : Z := Z.quot h (o_interval o) + 1.
+(* interval chunks (data/rewards/store.go).  An interval record {LastIndex, LastHeight} is written
+   when the reward interval option changes, and ONE record {index of the open chunk, 2} when the
+   state is imported from an exported genesis.  GetInterval(h): the record with the largest
+   LastHeight in (0, h], default {0, 0}. *)
+Record ivl := mkIvl { iv_index : Z; iv_height : Z }.
+Fixpoint get_interval_aux (ivs : list ivl) (h : Z) (best : ivl) : ivl :=
+  match ivs with
+  | [] => best
+  | i :: r => get_interval_aux r h
+                (if (iv_height best <? iv_height i) && (iv_height i <=? h) then i else best)
+  end.
+Definition get_interval (ivs : list ivl) (h : Z) : ivl := get_interval_aux ivs h (mkIvl 0 0).
+(* generateKey: index of the chunk credited at height h *)
+Definition chunk_idx (o : opts) (ivs : list ivl) (h : Z) : Z :=
+  let i := get_interval ivs h in iv_index i + Z.quot (h - iv_height i) (o_interval o) + 1.
+Definition chunk_index (o : opts) (h : Z) : Z := chunk_idx o [] h.
 Definition matures_at (o : opts) (h : Z) : bool := Z.rem h (o_interval o) =? 0.
-Definition matured_index (o : opts) (h : Z) : Z := chunk_index o h - 2.
+(* generateMaturedKey: the chunk that matures at h (when h mod interval = 0); an index below 0
+   names no record (the Go code builds no key for index < 2, and chunk indices start at 1) *)
+Definition matured_idx (o : opts) (ivs : list ivl) (h : Z) : Z := chunk_idx o ivs h - 2.
+Definition matured_index (o : opts) (h : Z) : Z := matured_idx o [] h.
+
+(* state export / import (RewardStore.dumpState / loadState, the save_state -> genesis -> InitChain
+   path).  dumpState at committed version V writes the single interval record
+   {chunk_idx at V, 2}; loadState stores exactly the dumped records (chunks are copied as they are). *)
+Definition dump_interval (o : opts) (ivs : list ivl) (V : Z) : ivl := mkIvl (chunk_idx o ivs V) 2.
+Definition load_intervals (d : ivl) : list ivl := [d].
+(* the last maturity height of the exporting chain and the chunk that matured there *)
+Definition last_maturity_height (o : opts) (V : Z) : Z := V / o_interval o * o_interval o.
 
 (* ------------------------------------------------------------------------------------------ *)
 (* the WITHDRAW_REWARD transaction (action/rewards/withdraw.go) as far as the cumulative records go.
